@@ -163,6 +163,7 @@ fn check_stream(mut s: jbk::reader::ByteStream, want: &[u8], parts: &[usize], la
         consumed += p;
     }
     empty_read(&mut s, consumed)?;
+    let _ = consumed;
     // over-long read at the end
     let mut extra = [0u8; 5];
     match s.read(&mut extra) {
@@ -172,6 +173,42 @@ fn check_stream(mut s: jbk::reader::ByteStream, want: &[u8], parts: &[usize], la
     }
     if s.offset() != total || s.size_left() != 0 {
         return Err(f("stream offset()/size_left() at the end", format!("offset()={} size_left()={}", s.offset(), s.size_left())));
+    }
+    Ok(())
+}
+
+/// The same walk through the other entry points of `Read`: every part but the last with
+/// `read_exact`, the rest with `read_to_end`; then `read_exact` past the end must fail.
+fn check_stream_exact(mut s: jbk::reader::ByteStream, want: &[u8], parts: &[usize], label: &str) -> Result<(), Fail> {
+    let total = want.len() as u64;
+    let f = |k: &str, w: String| Fail { key: format!("{label}: {k}"), what: w };
+    let mut consumed = 0usize;
+    let (last, head) = match parts.split_last() {
+        Some(x) => x,
+        None => return Ok(()),
+    };
+    for &p in head {
+        let mut buf = vec![0u8; p];
+        s.read_exact(&mut buf).map_err(|e| f("read_exact fails inside the view", format!("{e} at {consumed}+{p} of {total}")))?;
+        if buf != want[consumed..consumed + p] {
+            return Err(f("read_exact yields other bytes", format!("bytes [{consumed},{})", consumed + p)));
+        }
+        consumed += p;
+        if s.offset() != consumed as u64 || s.size_left() != total - consumed as u64 {
+            return Err(f("stream offset()/size_left() inconsistent after read_exact", format!("after {consumed} bytes: offset()={} size_left()={}", s.offset(), s.size_left())));
+        }
+    }
+    let mut rest = vec![];
+    let n = s.read_to_end(&mut rest).map_err(|e| f("read_to_end fails", format!("{e} after {consumed} of {total} bytes")))?;
+    if n != rest.len() || n != *last || rest != want[consumed..] {
+        return Err(f("read_to_end after earlier reads yields something else than the rest of the view", format!("after {consumed} bytes: returned {n} bytes, {} were left", total as usize - consumed)));
+    }
+    if s.offset() != total || s.size_left() != 0 {
+        return Err(f("stream offset()/size_left() at the end (read_to_end)", format!("offset()={} size_left()={}", s.offset(), s.size_left())));
+    }
+    let mut one = [0u8; 1];
+    if s.read_exact(&mut one).is_ok() {
+        return Err(f("read_exact succeeds past the end of the view", format!("byte {:02x}", one[0])));
     }
     Ok(())
 }
@@ -243,7 +280,9 @@ fn check_view(region: &ByteRegion, chain: &[(usize, usize)], base: &[u8], comps_
         check_stream(as_region.stream(), want, parts, &format!("{label} region.stream()"))?;
         check_stream(jbk::reader::ByteStream::from(as_region.clone()), want, parts, &format!("{label} ByteStream::from(region)"))?;
         check_stream(as_region.as_slice().stream(), want, parts, &format!("{label} region.as_slice().stream()"))?;
-        checks += 4;
+        check_stream_exact(view.stream(), want, parts, &format!("{label} slice.stream()"))?;
+        check_stream_exact(jbk::reader::ByteStream::from(as_region.clone()), want, parts, &format!("{label} ByteStream::from(region)"))?;
+        checks += 6;
     }
     Ok(checks)
 }
@@ -423,7 +462,7 @@ fn main() {
     let mut rep = Report::new(
         "viewmc",
         "C13",
-        "payloads of length L in 0..5 (quick) / 0..7 (thorough), never at offset 0 of their source, followed by other bytes or ending exactly at the end of the source, on 8 source kinds (Vec, file uncut, file cut <4 KiB, file cut >=4 KiB mmap, background decoder identity and zstd, content #2 of a raw and of a compressed cluster through the container API); every chain of nested cuts (o1,s1) >= (o2,s2) >= (o3,s3) up to depth 3; on every view: size(), get_slice of every sub-range on the slice and on the converted region, and 4 stream conversion paths x every composition of the length into read sizes with size()/offset()/size_left() after every read, a zero-length read before every read and at the end (returns 0, moves nothing) and an over-long read at the end; plus one 5000-byte payload per source with a reduced cut set and one 70000-byte payload per source with slices and reads of 65535/65536/65537+ bytes on the region, a slice, a nested slice and the region made from it; a decoder scripted to stall after its first 4096 bytes with the first access deep in the data; two views of one source read alternately (all 6 interleavings of 2+2 reads) at distances {0,10,1023,1024,1025,2048,4096} x read sizes {1,10,1023,1024}; non-trivial = view of at least one byte; distinct by (source, L, chain)",
+        "payloads of length L in 0..5 (quick) / 0..7 (thorough), never at offset 0 of their source, followed by other bytes or ending exactly at the end of the source, on 8 source kinds (Vec, file uncut, file cut <4 KiB, file cut >=4 KiB mmap, background decoder identity and zstd, content #2 of a raw and of a compressed cluster through the container API); every chain of nested cuts (o1,s1) >= (o2,s2) >= (o3,s3) up to depth 3; on every view: size(), get_slice of every sub-range on the slice and on the converted region, and 4 stream conversion paths x every composition of the length into read sizes with size()/offset()/size_left() after every read, a zero-length read before every read and at the end (returns 0, moves nothing) and an over-long read at the end, and the same walk with read_exact for every part but the last and read_to_end for the rest; plus one 5000-byte payload per source with a reduced cut set and one 70000-byte payload per source with slices and reads of 65535/65536/65537+ bytes on the region, a slice, a nested slice and the region made from it; a decoder scripted to stall after its first 4096 bytes with the first access deep in the data; two views of one source read alternately (all 6 interleavings of 2+2 reads) at distances {0,10,1023,1024,1025,2048,4096} x read sizes {1,10,1023,1024}; non-trivial = view of at least one byte; distinct by (source, L, chain)",
     );
     rep.extra.insert("profile".into(), json!(profile));
     let dir = jbkmc::scratch_dir("view");
